@@ -22,6 +22,9 @@
 (*  - decrypt_raw derived the file key of revisions 2-4 from the supplied password itself, also when   *)
 (*    it authenticated as the owner password (Dev_h12),                                              *)
 (*  - encrypt_object / decrypt_object did not descend into stream dictionaries (Dev_h13).             *)
+(*  - PasswordAlgorithm::try_from rejects a Length entry when V < 2 or outside 40..128 (so /Length 256 with   *)
+(*    V 5 and /Length 40 with V 1) and takes 40 bits for revisions 3-4 when there is none (so V 4 without      *)
+(*    Length) (Dev_length).                                                                              *)
 (* ImplRefines: lopdf-shaped writer + ISO reader and ISO writer + lopdf-shaped reader agree with the  *)
 (* declarative layer EXCEPT exactly in the cases named by the switches that are on.                  *)
 (*                                                                                                *)
@@ -35,7 +38,7 @@
 (* of the declarative layer.                                                                        *)
 EXTENDS SecurityAlgorithms, TLC, Json
 
-CONSTANTS Thorough, Mut, Dev_h12, Dev_h13, Dev_ownerAbsent, Emit
+CONSTANTS Thorough, Mut, Dev_h12, Dev_h13, Dev_ownerAbsent, Dev_length, Emit
 
 VARIABLES pc, cfg, absent, pws, w, try, res, todo, chk
 vars == <<pc, cfg, absent, pws, w, try, res, todo, chk>>
@@ -250,6 +253,18 @@ Shapes == pc \in {"written", "opened", "done"} =>
             /\ cfg.R >= 5 => TLen(w.iso.OE) = 32 /\ TLen(w.iso.UE) = 32 /\ TLen(w.iso.Perms) = 16
             /\ TLen(KeyOf(cfg, w.iso.fk, "stream")) = (IF cfg.R >= 5 THEN 32 ELSE Min(KeyBytes(cfg.R, cfg.bits) + 5, 16))
 
+(* the Length entry: every legal form gives the reader the writer's key length (declarative) *)
+LengthAgreement == pc = "cfg" => /\ CanonLength(cfg) \in LegalLengths(cfg)
+                                 /\ \A len \in LegalLengths(cfg) : ReaderBits(cfg.V, len) = cfg.bits
+\* lopdf (PasswordAlgorithm::try_from, compute_file_encryption_key_r4): -1 = InvalidKeyLength
+LopdfBits(c, len) ==
+    IF ~Dev_length THEN ReaderBits(c.V, len)
+    ELSE IF len # -1 /\ (c.V < 2 \/ len % 8 # 0 \/ len < 40 \/ len > 128) THEN -1
+    ELSE IF c.R >= 5 THEN 256 ELSE IF c.R = 2 THEN 40 ELSE IF len = -1 THEN 40 ELSE len
+DevLengthClasses == {"V1.40", "V4.absent", "V5.256"}
+DevLengthHere(c, len) == Dev_length /\ LenClass(c, len) \in DevLengthClasses
+ImplLengthRefines == pc = "cfg" => \A len \in LegalLengths(cfg) : (LopdfBits(cfg, len) = cfg.bits) <=> ~DevLengthHere(cfg, len)
+
 (* impl-shaped refines declarative, except exactly the confirmed deviations *)
 \* the input classes of the two deviations (whatever the switches say): used for anti-vacuity of the emitted cases
 ClsOwnerAbsentHere == cfg.R <= 4 /\ pws.owner = PwE /\ Canon(cfg.R, pws.user) # Canon(cfg.R, PwE)
@@ -322,6 +337,9 @@ Defs(c, ab) ==
                  D("r.perms.ok", PermsValid(fk, Ref("Perms", 16), sP, c.meta))>> \o ItemDefs(c, n, fk)
 
 \* split = 1: the segment ends inside a multi-byte character
+\* the legal Length entries in ascending order
+SetToSeqLen(S) == LET lo == CHOOSE x \in S : \A y \in S : x <= y
+                  IN IF Cardinality(S) = 1 THEN <<lo>> ELSE <<lo, CHOOSE x \in S : x # lo>>
 SegsJson(p) == [i \in 1..Len(p.a) |-> [id |-> p.a[i].s, len |-> p.a[i].n[1],
                                        split |-> IF p.a[i] \in SplitSegs THEN 1 ELSE 0]]
 
@@ -329,6 +347,10 @@ EmitInv ==
     /\ (Emit /\ pc = "cfg") =>
           PrintT(<<"TERMS", ToJson([cfg |-> cfg, absent |-> absent, ucmp |-> UCmpLen(cfg.R),
                                     subjects |-> [k \in ItemKinds |-> IsoSubject(k, cfg.meta)],
+                                    lengths |-> SetToSeqLen(LegalLengths(cfg)), canonLength |-> CanonLength(cfg),
+                                    lengthModel |-> [i \in 1..Cardinality(LegalLengths(cfg)) |->
+                                                       LET len == SetToSeqLen(LegalLengths(cfg))[i]
+                                                       IN [len |-> len, cls |-> LenClass(cfg, len), dev |-> DevLengthHere(cfg, len)]],
                                     defs |-> Defs(cfg, absent)])>>)
     /\ (Emit /\ pc = "done") =>
           PrintT(<<"CASE", ToJson([cfg |-> cfg, absent |-> absent,
